@@ -283,7 +283,7 @@ def discharge(ob: Obligation, timeout_ms=20000, extra_axioms=(), use_cvc5=True):
             for a in ax:
                 g.add(a)
             g.add(z3.Not(goal))
-            t = z3.TryFor(z3.Then("simplify", "purify-arith", "elim-term-ite", "solve-eqs", "smt"), timeout_ms)
+            t = z3.TryFor(z3.Then("simplify", "purify-arith", "elim-term-ite", "solve-eqs", "smt"), max(2000, timeout_ms // 4))
             s2 = t.solver()
             s2.add(g.as_expr())
             r2 = s2.check()
@@ -297,7 +297,7 @@ def discharge(ob: Obligation, timeout_ms=20000, extra_axioms=(), use_cvc5=True):
         except z3.Z3Exception:
             pass
         if ob.status == "unknown" and use_cvc5:
-            res = _cvc5_check(s, timeout_ms)
+            res = _cvc5_check(s, max(2000, timeout_ms // 4))
             if res == "unsat":
                 ob.status = "discharged"
                 ob.backend = "cvc5"
